@@ -331,9 +331,9 @@ func buildPlan(id string, pinned map[string]string, tier string) *Plan {
 			"scalar multiplications, point addition, on-curve tests, HashToInt and the hash object are opaque calls: their arguments and results are captured at the call site; setter-style methods write only their receiver; chained methods return their receiver",
 			"Element.BigInt / SetBigInt are the (uninterpreted) bijection between ring elements and integers at the ring layer"}
 		p.NotCovered = []string{"completeness (every honest signature verifies): needs the group law over scalar multiplication (C03), not under contract",
-			"GenerateKey, nonce derivation (the nonce is whatever randFieldElement returned), the recovery id computed by SignForRecover, public-key recovery beyond the x-coordinate of the commitment, EdDSA Sign, the key encoders (Bytes) and the round trip, the signature.Signer interfaces: not under contract",
-			"EdDSA Verify: the byte encodings of the coordinates that are hashed are the results of opaque Bytes() calls on R.X, R.Y, A.X, A.Y (which coordinate, in which order, is under contract; the encoding itself is the C08 contract of Bytes); EdDSA Sign: what is hashed is not under contract; the curve order is the value returned by GetEdwardsCurve (not compared with a pinned constant)"}
-		p.Note = "ECDSA: Signature.SetBytes accepts exactly the 2*sizeFr-byte strings with 0 < r, s < n (both directions) and stores them unchanged; Verify refuses (false) on every decoding error, and on acceptance of the encoding returns exactly [ (x(U) mod n) == r ] for the U produced by the joint scalar multiplication called on the public key with u1 = m*s^-1 mod n and u2 = r*s^-1 mod n, m = HashToInt(...) applied to the message itself when no hash is given and to the slice the hash returned otherwise (the textbook equation with the scalar multiplication opaque); Sign (SignForRecover + Sign on the 3 curves with recovery) returns a signature only if r = x(P) mod n != 0 for P the base-point multiple of the drawn nonce k, s = k^-1 (m + r d) mod n != 0 with d the big-endian integer of the private key and m = HashToInt of the message or of the digest, 0 < r, s < n, and the bytes returned are those of (r, s); recoverP accepts only 0 < r < n and sets x = r + n*bit1(v). EdDSA: Signature.SetBytes accepts only strings of 2*sizeFr bytes with 0 < y(R) < q after clearing the sign bit (mask recomputed from the pinned modulus), 0 < S < order, and R decoded by the point decoder and on the curve; Verify requires a hash, the key on the curve, decodes the signature through that contract, and returns exactly the comparison of [cofactor][S]Base with [cofactor](R + [H]A) computed by the (opaque) point operations in that order on those operands, both results tested on the curve. Key decoders of both schemes (PublicKey.SetBytes, PrivateKey.SetBytes): total on every buffer (crypto/subtle's length requirement is an obligation), refuse exactly the buffers shorter than the key, accept only if the point decoder accepted the leading bytes (EdDSA: and the point is on the curve), report the size of the key as the bytes consumed, and copy the secret scalar (EdDSA: and the randomness) from the following bytes unchanged. EdDSA Verify hashes, after a Reset, exactly the encodings of R.X, R.Y, A.X, A.Y and then the message, in this order (five writes, checked before every Write), takes the digest after exactly these writes and uses that digest - and nothing else - as the scalar that multiplies the public key."
+			"GenerateKey, nonce derivation (the nonce is whatever randFieldElement returned), the recovery id computed by SignForRecover, public-key recovery beyond the x-coordinate of the commitment, the layout of the bytes EdDSA Sign returns (padding of s, Bytes of the signature) and its nonce derivation (BLAKE2b: an opaque call), the key encoders (Bytes) and the round trip, the signature.Signer interfaces: not under contract",
+			"EdDSA Verify: the byte encodings of the coordinates that are hashed are the results of opaque Bytes() calls on R.X, R.Y, A.X, A.Y (which coordinate, in which order, is under contract; the encoding itself is the C08 contract of Bytes); the curve order is the value returned by GetEdwardsCurve (not compared with a pinned constant)"}
+		p.Note = "ECDSA: Signature.SetBytes accepts exactly the 2*sizeFr-byte strings with 0 < r, s < n (both directions) and stores them unchanged; Verify refuses (false) on every decoding error, and on acceptance of the encoding returns exactly [ (x(U) mod n) == r ] for the U produced by the joint scalar multiplication called on the public key with u1 = m*s^-1 mod n and u2 = r*s^-1 mod n, m = HashToInt(...) applied to the message itself when no hash is given and to the slice the hash returned otherwise (the textbook equation with the scalar multiplication opaque); Sign (SignForRecover + Sign on the 3 curves with recovery) returns a signature only if r = x(P) mod n != 0 for P the base-point multiple of the drawn nonce k, s = k^-1 (m + r d) mod n != 0 with d the big-endian integer of the private key and m = HashToInt of the message or of the digest, 0 < r, s < n, and the bytes returned are those of (r, s); recoverP accepts only 0 < r < n and sets x = r + n*bit1(v). EdDSA: Signature.SetBytes accepts only strings of 2*sizeFr bytes with 0 < y(R) < q after clearing the sign bit (mask recomputed from the pinned modulus), 0 < S < order, and R decoded by the point decoder and on the curve; Verify requires a hash, the key on the curve, decodes the signature through that contract, and returns exactly the comparison of [cofactor][S]Base with [cofactor](R + [H]A) computed by the (opaque) point operations in that order on those operands, both results tested on the curve. Key decoders of both schemes (PublicKey.SetBytes, PrivateKey.SetBytes): total on every buffer (crypto/subtle's length requirement is an obligation), refuse exactly the buffers shorter than the key, accept only if the point decoder accepted the leading bytes (EdDSA: and the point is on the curve), report the size of the key as the bytes consumed, and copy the secret scalar (EdDSA: and the randomness) from the following bytes unchanged. EdDSA Sign: R = blind*Base with blind read from the first sizeFr bytes of the BLAKE2b-512 digest and R on the curve; H(R, A, M) over exactly the encodings of R.X, R.Y, A.X, A.Y and the message in this order after a Reset; the value reduced into the signature is (hram*scalar + blind) mod Order with scalar read from privKey.scalar (the order is positive: assumed contract of GetEdwardsCurve). EdDSA Verify hashes, after a Reset, exactly the encodings of R.X, R.Y, A.X, A.Y and then the message, in this order (five writes, checked before every Write), takes the digest after exactly these writes and uses that digest - and nothing else - as the scalar that multiplies the public key."
 		return p
 	case "C13":
 		p := &Plan{ID: id}
